@@ -68,10 +68,18 @@ abbrev Env := List (Nat × Seq)
 `name(?, …)` -/
 inductive Builtin where
   | abs | count | sum | reverse | head | tail | exists_ | empty_ | remove | insertBefore
+  | position0 | last0 | data0
   deriving DecidableEq, Repr, Inhabited
 
 def Builtin.arity : Builtin → Nat
-  | .remove => 2 | .insertBefore => 3 | _ => 1
+  | .remove => 2 | .insertBefore => 3 | .position0 => 0 | .last0 => 0 | .data0 => 0 | _ => 1
+
+/-- functions that read the focus: `fn:position#0`, `fn:last#0`, `fn:data#0` (the context item) -/
+def Builtin.focusDep : Builtin → Bool
+  | .position0 => true | .last0 => true | .data0 => true | _ => false
+
+/-- a focus: context item (absent = none), context position, context size -/
+abbrev Focus := Option Item × Nat × Nat
 
 /-- the expression fragment.  `fnE tok ps body`: inline function expression number `tok` of the
 program (its syntax token), `call f args` dynamic call with `none` = the placeholder `?`,
@@ -79,7 +87,7 @@ program (its syntax token), `call f args` dynamic call with `none` = the placeho
 inductive Expr where
   | lit (n : Int) | dlit (n : Int) | elit (n : Int) | tt | ff | emp
   | inst (t : Ty) (e : Expr)
-  | var (x : Nat) | dot
+  | var (x : Nat) | dot | posE | lastE
   | add (a b : Expr) | sub (a b : Expr) | mul (a b : Expr)
   | gt (a b : Expr) | eq (a b : Expr)
   | cat (a b : Expr)
@@ -207,6 +215,21 @@ def Builtin.ap : Builtin → List Seq → Except Err Seq
   | b, [s] => b.ap1 s
   | _, _ => .error .XPTY0004
 
+/-- a named function on its argument list, with the focus it was given when the reference was
+created (XPath 3.1 §3.1.6: "the focus … of the named function reference expression are captured
+in the function item"): `position#0`, `last#0`, `data#0` read it (XPDY0002 when absent), the others
+ignore it -/
+def Builtin.apF (b : Builtin) (foc : Focus) (args : List Seq) : Except Err Seq :=
+  if b.focusDep then
+    match args, foc.1 with
+    | [], none => .error .XPDY0002
+    | [], some i => match b with
+      | .position0 => .ok [.int foc.2.1]
+      | .last0 => .ok [.int foc.2.2]
+      | _ => match i with | .fn _ => .error .FOTY0013 | x => .ok [x]
+    | _, _ => .error .XPTY0004
+  else b.ap args
+
 /-! ### partial application patterns -/
 
 /-- number of placeholders in an argument pattern -/
@@ -261,6 +284,8 @@ structure SObj where
   code : Code
   lex : Env
   fixed : Option (List (Option Seq))
+  /-- the focus captured by a named function reference -/
+  focus : Focus := (none, 1, 1)
   deriving Repr, Inhabited
 
 abbrev SHeap := List SObj
@@ -295,6 +320,9 @@ def SM.single (s : Seq) : SM Nat := match s with
 structure SCtx where
   lex : Env
   item : Option Item
+  /-- context position and size (meaningful when `item` is present) -/
+  pos : Nat := 1
+  size : Nat := 1
   deriving Repr, Inhabited
 
 /-! ### the higher-order functions by their F&O definitions.
@@ -393,7 +421,7 @@ def specCall (a : Nat) (args : List Seq) : SM Seq := do
     | some pat => if args.length = holes pat then pure (fill pat args) else SM.throw .XPTY0004
   match o.code with
   | .builtin b =>
-    if full.length = b.arity then SM.lift (b.ap full) else SM.throw .XPTY0004
+    if full.length = b.arity then SM.lift (b.apF o.focus full) else SM.throw .XPTY0004
   | .inline ps body =>
     if full.length = ps.length then
       ev body { lex := ps.zip full ++ o.lex, item := none }
@@ -406,7 +434,7 @@ def specPartial (c : SCtx) (a : Nat) (args : List (Option Expr)) : SM Seq := do
   if args.length = o.arity then do
     let vals ← specArgs ev c args
     let pat := match o.fixed with | none => vals | some old => refill old vals
-    let n ← SM.alloc { code := o.code, lex := o.lex, fixed := some pat }
+    let n ← SM.alloc { code := o.code, lex := o.lex, fixed := some pat, focus := o.focus }
     pure [.fn n]
   else SM.throw .XPTY0004
 
@@ -459,12 +487,12 @@ def specFor (c : SCtx) (x : Nat) (b : Expr) : Seq → SM Seq
     let rs ← specFor c x b is
     pure (r ++ rs)
 
-/-- `a ! b` -/
-def specMap (c : SCtx) (b : Expr) : Seq → SM Seq
-  | [] => pure []
-  | i :: is => do
-    let r ← ev b { c with item := some i }
-    let rs ← specMap c b is
+/-- `a ! b`: every item of `a` in turn is the context item, with its position and the size of `a` -/
+def specMap (c : SCtx) (b : Expr) (size : Nat) : Nat → Seq → SM Seq
+  | _, [] => pure []
+  | k, i :: is => do
+    let r ← ev b { c with item := some i, pos := k, size := size }
+    let rs ← specMap c b size (k + 1) is
     pure (r ++ rs)
 
 def specStep (e : Expr) (c : SCtx) : SM Seq :=
@@ -484,6 +512,12 @@ def specStep (e : Expr) (c : SCtx) : SM Seq :=
     | none => SM.throw .XPST0008
   | .dot => match c.item with
     | some i => pure [i]
+    | none => SM.throw .XPDY0002
+  | .posE => match c.item with
+    | some _ => pure [.int c.pos]
+    | none => SM.throw .XPDY0002
+  | .lastE => match c.item with
+    | some _ => pure [.int c.size]
     | none => SM.throw .XPDY0002
   | .add a b => specArith ev .add a b c
   | .sub a b => specArith ev .sub a b c
@@ -508,7 +542,8 @@ def specStep (e : Expr) (c : SCtx) : SM Seq :=
     let n ← SM.alloc { code := .inline ps body, lex := c.lex, fixed := none }
     pure [.fn n]
   | .named b => do
-    let n ← SM.alloc { code := .builtin b, lex := [], fixed := none }
+    -- the reference captures the focus of the place where it is evaluated
+    let n ← SM.alloc { code := .builtin b, lex := [], fixed := none, focus := (c.item, c.pos, c.size) }
     pure [.fn n]
   | .call f args => do
     let fv ← ev f c
@@ -518,7 +553,8 @@ def specStep (e : Expr) (c : SCtx) : SM Seq :=
       let vals ← specList ev c (args.filterMap id)
       specCall ev a vals
   | .spart b args =>
-    -- static partial application `name(?, v, …)` of a named function
+    -- static partial application `name(?, v, …)` of a named function (XPath 3.1 §3.1.5.1: the fixed
+    -- arguments are evaluated when the partial application is evaluated; a new function item each time)
     if args.length = b.arity then do
       let vals ← specArgs ev c args
       let n ← SM.alloc { code := .builtin b, lex := [], fixed := some vals }
@@ -527,7 +563,7 @@ def specStep (e : Expr) (c : SCtx) : SM Seq :=
   | .par e => ev e c
   | .smap a b => do
     let xs ← ev a c
-    specMap ev c b xs
+    specMap ev c b xs.length 1 xs
   | .forEach s f => do
     let a ← specFunArgN ev c f 1
     let xs ← ev s c
